@@ -470,6 +470,8 @@ pub fn gen_string(r: &mut Rng, target: usize) -> String {
                 _ => char::from_u32(0x4e00 + r.below(0x100) as u32).unwrap(),
             },
         };
+        // rarely the NUL character: valid UTF-8, and the one a C-minded writer may treat as a terminator
+        let c = if r.chance(1, 40) { '\0' } else { c };
         s.push(c);
     }
     s
